@@ -501,6 +501,11 @@ func fmtDirected(r *rng.R) ([]cty.Value, string) {
 	case 1:
 		n := []int64{0, 1, -1, 42, -273, 65535, 1 << 40, -1 << 62}[r.Intn(8)]
 		v := "%" + flags + "d"
+		if r.Chance(35) {
+			// flags and width together with an explicit argument index
+			v = "%" + flags + "[2]d"
+			return []cty.Value{cty.StringVal(pre + v + post), cty.StringVal("pad"), cty.NumberIntVal(n)}, fmt.Sprintf(pre+v+post, "pad", n)
+		}
 		return []cty.Value{cty.StringVal(pre + v + post), cty.NumberIntVal(n)}, fmt.Sprintf(pre+v+post, n)
 	case 2:
 		b := r.Bool()
@@ -512,10 +517,18 @@ func fmtDirected(r *rng.R) ([]cty.Value, string) {
 			flags = ""
 		}
 		v := "%" + flags + vb
+		if r.Chance(35) {
+			v = "%" + flags + "[2]" + vb
+			return []cty.Value{cty.StringVal(pre + v + post), cty.StringVal("pad"), cty.NumberIntVal(n)}, fmt.Sprintf(pre+v+post, "pad", n)
+		}
 		return []cty.Value{cty.StringVal(pre + v + post), cty.NumberIntVal(n)}, fmt.Sprintf(pre+v+post, n)
 	case 4:
 		f := []float64{0, 1.5, -2.25, 1234.5678, 1e10, 0.001, 100}[r.Intn(7)]
 		v := "%" + []string{"f", ".2f", "10.3f", ".0f", "e", ".3e", "g"}[r.Intn(7)]
+		if r.Chance(35) {
+			v = v[:len(v)-1] + "[2]" + v[len(v)-1:]
+			return []cty.Value{cty.StringVal(pre + v + post), cty.StringVal("pad"), cty.NumberFloatVal(f)}, fmt.Sprintf(pre+v+post, "pad", f)
+		}
 		return []cty.Value{cty.StringVal(pre + v + post), cty.NumberFloatVal(f)}, fmt.Sprintf(pre+v+post, f)
 	default:
 		s := []string{"a", "hello world", "quo\"te", "tab\there", "é", ""}[r.Intn(6)]
